@@ -170,7 +170,7 @@ func (w *pedWorld) sign(p *party, pkt pdkg.Packet) {
 
 var dealerMenu = []string{"deal-readdressed-outside", "deal-absent", "deal-wrong-share", "deal-garbage-cipher", "deal-swapped", "deal-index-outside", "deal-poly-length",
 	"deal-wrong-session", "deal-equivocate", "deal-thrice", "deal-bad-signature", "deal-foreign-index", "deal-wrong-constant"}
-var holderMenu = []string{"resp-false-complaint", "resp-success-in-slow-mode", "resp-silent", "resp-unknown-dealer", "resp-conflicting", "resp-wrong-session"}
+var holderMenu = []string{"resp-false-complaint", "resp-success-in-slow-mode", "resp-silent", "resp-unknown-dealer", "resp-conflicting", "resp-wrong-session", "resp-complaint-and-violating"}
 var justMenu = []string{"just-wrong-share", "just-index-outside", "just-missing", "just-wrong-session", "just-twice"}
 
 func (w *pedWorld) holderPub(nidx uint32) kyber.Point {
@@ -491,6 +491,29 @@ func (w *pedWorld) mutateResp(p *party, b *pdkg.ResponseBundle) []pdkg.Packet {
 		w.info.ByzFired("resp-wrong-session")
 	}
 	w.sign(p, b)
+	if p.beh["resp-complaint-and-violating"] && len(b.Responses) == 0 {
+		for _, q := range w.parties {
+			if q.honest() && q.inOld() && q != p {
+				b.Responses = append(b.Responses, pdkg.Response{DealerIndex: uint32(q.oidx), Status: pdkg.Complaint})
+				break
+			}
+		}
+	}
+	if p.beh["resp-complaint-and-violating"] && len(b.Responses) > 0 {
+		// two bundles from one holder: a well-formed one that complains about a dealer, and one that
+		// breaks a rule (wrong session id). Receivers see them in different orders; what is recorded
+		// must not depend on the order (seed C11m: bundles of an author evicted earlier IN THE SAME CALL
+		// were skipped, so the complaint counted at some nodes only). Direct mode hands both over; the
+		// Protocol driver keeps one packet per author.
+		k := t.Intn("byz.pick", len(b.Responses))
+		b.Responses[k].Status = pdkg.Complaint
+		w.sign(p, b)
+		b2 := copyResp(b)
+		b2.SessionID = t.OtherBytes("byz.val", w.nonce, 32)
+		w.sign(p, b2)
+		out = append(out, b2)
+		w.info.ByzFired("resp-complaint-and-violating")
+	}
 	if p.beh["resp-conflicting"] && w.protocol {
 		b2 := copyResp(b)
 		if len(b2.Responses) > 0 {
